@@ -232,9 +232,12 @@ pub fn ref_expected(tree: &Tree, prof: &Profile) -> f64 {
     match tree {
         Tree::T(pay) => *pay,
         Tree::C(_, outs) => {
-            let total: f64 = outs.iter().map(|(w, _)| w).sum();
+            // weights near f64::MAX: scale by an exact power of two first so that the sum is finite
+            let max = outs.iter().map(|(w, _)| *w).fold(0.0, f64::max);
+            let factor = if max > 1e300 { 2f64.powi(-64) } else { 1.0 };
+            let total: f64 = outs.iter().map(|(w, _)| w * factor).sum();
             outs.iter()
-                .map(|(w, next)| w / total * ref_expected(next, prof))
+                .map(|(w, next)| w * factor / total * ref_expected(next, prof))
                 .sum()
         }
         Tree::P(num, info, acts) => acts
